@@ -106,4 +106,25 @@ theorem C09_jar (j : Jar) (wl : List SKey) (k : SKey) :
 login, second factor) and stamps there. -/
 theorem C09_login_stamps : Unit.after .expire .auth = [expireAfterAuth] := rfl
 
+/-- … and (after the `fix:`) `After(EventOAuth2)` and `After(EventRegister)`: the OAuth2 callback
+and the login that follows a registration start the idle clock as well. -/
+theorem C09_oauth2_register_stamp :
+    Unit.after .expire .oauth2 = [expireAfterAuth] ∧ Unit.after .expire .register = [expireAfterAuth] :=
+  ⟨rfl, rfl⟩
+
+/-- The stamp: the handler queues `last_action := now` (whole seconds) and never interrupts. -/
+theorem C09_stamp_is_now (b : Bool) (c : Ctx) :
+    (expireAfterAuth b c).1 = .ok false ∧
+    (expireAfterAuth b c).2.acts = c.acts ++ [.sess (.put .lastAction (decStr (floorSec c.now)))] := by
+  unfold expireAfterAuth refreshExpiry
+  simp [bind_apply, M.get, M.putS, M.act, M.modify, pure_apply]
+
+set_option maxHeartbeats 4000000 in
+/-- Kernel-evaluated: an OAuth2 login leaves a session that carries the stamp. -/
+example :
+    let cfg : Config := { units := [.oauth2, .expire], expireMW := true, expireAfter := 1000000000000 }
+    let s0 := run cfg {} [.http (lit "b") .oauth2Start { provider := lit "stub", fresh := lit "st" } none]
+    let s := run cfg s0 [.http (lit "b") .oauth2End { provider := lit "stub", state := lit "st", provUid := some (lit "u1") } none]
+    ((s.browser (lit "b")).sess.get .uid).isSome ∧ ((s.browser (lit "b")).sess.get .lastAction).isSome := by decide
+
 end AuthbossModel.M
